@@ -546,7 +546,12 @@ func (w *Worker) doTaskAttempt(
 		// ErrPluginNotRunning can be returned if the plugin is stopped before
 		// trying to read the next batch.
 		// Both are considered as graceful stop, just return the context error, if any.
-		if taskNode.IsFirst() && (cerrors.Is(err, context.Canceled) ||
+		// A Canceled error is only graceful if it was caused by us: the context
+		// was cancelled or a stop tore down the source (stop is set before the
+		// teardown, see Stop). A plugin whose stream ended with a Canceled error
+		// of its own is a failure; returning nil for it would make Do read from
+		// the dead stream over and over again.
+		if taskNode.IsFirst() && ((cerrors.Is(err, context.Canceled) && (ctx.Err() != nil || w.stop.Load())) ||
 			(cerrors.Is(err, plugin.ErrPluginNotRunning) && w.stop.Load())) {
 			return ctx.Err()
 		}
